@@ -1,0 +1,839 @@
+//! Verification harness for property C06 (test-only; see /verif): honest proposals are accepted,
+//! malformed or over-limit ones are rejected.
+//!
+//! Drives TWO independent `App`s (`A` = proposer with a mempool, `B` = validator) through the
+//! same scripted history (every line this module does not handle itself is delegated to two
+//! instances of `app::verif::Harness`), fills A's mempool through the real CheckTx path
+//! (`service::mempool::check_tx`), calls the real `App::prepare_proposal` on A and the real
+//! `App::process_proposal` on B, for the honest proposal and for single-field mutations of it.
+//!
+//! Run with:
+//! `cargo test --offline -p astria-sequencer --features verif --lib app::verif_c06::drive -- --exact`
+//!
+//! Ops handled here (all other lines: see `app/verif.rs`; they are run on A and on B):
+//!   ins <txid>...            CheckTx of each tx against A's latest committed snapshot
+//!                            -> `ins <id> pending|parked|already|failedchecks|err:<e>|removed|unknown`
+//!   prepare max=<i64>        `prepare_proposal` on A at height committed+1
+//!                            -> `queue <ids>` (A's builder queue before the call) and
+//!                               `prepare ok height= max= ids= bytes= nitems= itembytes= itemlens= codes= dry= removed= left=`
+//!                               or `prepare err=<class>`
+//!   process                  `process_proposal` on B for A's last response
+//!                            -> `process accept|reject=<class> noncons=<ids>`
+//!   mut <kind> <args>        `process_proposal` on B for a mutation of A's last response
+//!                            (kinds: swap i j | drop i | dup i | flip item byte | trunc idx n |
+//!                             swapitems i j | dropitem i | sig i byte | body i byte |
+//!                             append ids [recommit] | prepend ids [recommit])
+//!                            -> `mut <kind> <resolved args> ids= same= verdict= noncons=`
+//!   finalize                 A: own process_proposal + finalize_block + commit; B: finalize_block +
+//!                            commit, for A's last response -> `finalize height= own= same=`
+#![allow(
+    clippy::pedantic,
+    clippy::arithmetic_side_effects,
+    clippy::too_many_lines,
+    dead_code
+)]
+
+use std::{
+    collections::HashMap,
+    panic::AssertUnwindSafe,
+    sync::Arc,
+};
+
+use astria_core::{
+    generated::astria::protocol::transaction::v1 as raw,
+    primitive::v1::{
+        RollupId,
+        TransactionId,
+    },
+    sequencerblock::v1::block::Deposit,
+};
+use bytes::Bytes;
+use cnidarium::StateRead as _;
+use futures::FutureExt as _;
+use prost::Message as _;
+use sha2::{
+    Digest as _,
+    Sha256,
+};
+use tendermint::{
+    abci::{
+        self,
+        types::{
+            CommitInfo,
+            ExtendedCommitInfo,
+        },
+    },
+    block::{
+        Height,
+        Round,
+    },
+    Hash,
+};
+
+use super::{
+    verif::{
+        block_hash,
+        block_time,
+        debug_enabled,
+        error_class,
+        hex16,
+        report_chain,
+        Chain,
+        Harness,
+        KeyValues,
+        PResult,
+    },
+    ExecutedTransaction,
+    EXECUTED_TXS_KEY,
+};
+use crate::{
+    checked_transaction::CheckedTransaction,
+    mempool::TransactionStatus,
+    proposal::commitment::generate_rollup_datas_commitment,
+    service::mempool::{
+        check_tx,
+        CheckTxOutcome,
+    },
+};
+
+/// A's last successful `prepare_proposal` response.
+struct Honest {
+    height: u64,
+    /// The injected (non-transaction) data items, in order.
+    items: Vec<Bytes>,
+    /// The user transactions, in order.
+    txs: Vec<Bytes>,
+    /// Verdict of B on the unmodified proposal, once `process` ran.
+    accepted: Option<bool>,
+}
+
+struct Ctx {
+    a: Harness,
+    b: Harness,
+    out: String,
+    honest: Option<Honest>,
+}
+
+fn sha(bytes: &[u8]) -> [u8; 32] {
+    Sha256::digest(bytes).into()
+}
+
+fn join(ids: &[String]) -> String {
+    if ids.is_empty() {
+        "-".to_string()
+    } else {
+        ids.join(",")
+    }
+}
+
+/// Maps the error returned by `process_proposal` to the guard which produced it.
+fn reject_class(text: &str) -> &'static str {
+    let lower = text.to_lowercase();
+    let has = |needle: &str| lower.contains(needle);
+    if has("failed to parse data items") {
+        "parse"
+    } else if has("failed to validate extended commit info") {
+        "eci"
+    } else if has("upgrade change hashes") {
+        "upgrade"
+    } else if has("failed to construct checked transactions") {
+        "construct"
+    } else if has("max block sequenced data limit passed") {
+        "seqlimit"
+    } else if has("incorrect transaction group ordering") {
+        "group"
+    } else if has("transaction failed to execute") {
+        "exec"
+    } else if has("rollup transactions commitment does not match") {
+        "commit"
+    } else if has("rollup ids commitment does not match") {
+        "commitids"
+    } else if has("failed to run post execute") {
+        "post"
+    } else {
+        "other"
+    }
+}
+
+fn prepare_error_class(text: &str) -> &'static str {
+    let lower = text.to_lowercase();
+    let has = |needle: &str| lower.contains(needle);
+    if has("failed to create block size constraints") {
+        "size"
+    } else if has("exceeded size limit") {
+        "itemsize"
+    } else if has("failed to execute transactions") {
+        "exec"
+    } else {
+        "other"
+    }
+}
+
+impl Ctx {
+    fn new() -> Self {
+        Self {
+            a: Harness::new(),
+            b: Harness::new(),
+            out: String::new(),
+            honest: None,
+        }
+    }
+
+    fn emit(&mut self, line: impl AsRef<str>) {
+        self.out.push_str(line.as_ref());
+        self.out.push('\n');
+    }
+
+    fn label(&self, bytes: &[u8]) -> String {
+        self.a
+            .tx_names
+            .get(&sha(bytes))
+            .cloned()
+            .unwrap_or_else(|| "?".to_string())
+    }
+
+    fn labels(&self, txs: &[Bytes]) -> Vec<String> {
+        txs.iter().map(|bytes| self.label(bytes)).collect()
+    }
+
+    async fn run_line(&mut self, line: &str) {
+        let tokens: Vec<&str> = line.split_whitespace().collect();
+        let Some((&op, args)) = tokens.split_first() else {
+            return;
+        };
+        if op.starts_with('#') {
+            return;
+        }
+        match op {
+            "ins" | "prepare" | "process" | "mut" | "finalize" => {
+                let mark = self.out.len();
+                let result = AssertUnwindSafe(self.run_own(op, args)).catch_unwind().await;
+                match result {
+                    Ok(Ok(())) => {}
+                    Ok(Err(message)) => {
+                        if debug_enabled() {
+                            eprintln!("[verif_c06] parse error in `{line}`: {message}");
+                        }
+                        self.out.truncate(mark);
+                        self.emit(format!("{op} parseerr"));
+                    }
+                    Err(_) => {
+                        self.out.truncate(mark);
+                        self.emit(format!("{op} panic"));
+                        for harness in [&mut self.a, &mut self.b] {
+                            if let Some(chain) = harness.chain.as_mut() {
+                                let _ = std::panic::catch_unwind(AssertUnwindSafe(|| {
+                                    chain.reset_round();
+                                }));
+                            }
+                        }
+                    }
+                }
+            }
+            _ => {
+                if op == "case" || op == "genesis" {
+                    self.honest = None;
+                }
+                // Any op which moves the committed state invalidates the stored proposal.
+                if matches!(
+                    op,
+                    "advance" | "block" | "begin" | "exec" | "end" | "mint" | "allowfee" | "escrow" | "ibcchan"
+                ) {
+                    self.honest = None;
+                }
+                self.a.out.clear();
+                self.a.run_line(line).await;
+                let a_out = std::mem::take(&mut self.a.out);
+                self.b.out.clear();
+                self.b.run_line(line).await;
+                let b_out = std::mem::take(&mut self.b.out);
+                self.out.push_str(&a_out);
+                if a_out != b_out {
+                    self.emit(format!("desync {op}"));
+                    if debug_enabled() {
+                        eprintln!("[verif_c06] desync: A=`{a_out}` B=`{b_out}`");
+                    }
+                }
+            }
+        }
+    }
+
+    async fn run_own(&mut self, op: &str, args: &[&str]) -> PResult<()> {
+        match op {
+            "ins" => self.op_ins(args).await,
+            "prepare" => self.op_prepare(args).await,
+            "process" => self.op_process().await,
+            "mut" => self.op_mut(args).await,
+            "finalize" => self.op_finalize().await,
+            other => Err(format!("unknown op `{other}`")),
+        }
+    }
+
+    async fn op_ins(&mut self, args: &[&str]) -> PResult<()> {
+        if self.a.chain.is_none() {
+            return Err("no chain".to_string());
+        }
+        for id in args {
+            let Some(bytes) = self.a.txs.get(*id).cloned() else {
+                self.emit(format!("ins {id} unknown"));
+                continue;
+            };
+            let chain = self.a.chain.as_mut().unwrap();
+            let mempool = chain.app.mempool.clone();
+            let metrics = chain.app.metrics;
+            let outcome = check_tx(bytes, chain.storage.latest_snapshot(), &mempool, metrics).await;
+            let text = match outcome {
+                CheckTxOutcome::AddedToPending(_) => "pending".to_string(),
+                CheckTxOutcome::AddedToParked(_) => "parked".to_string(),
+                CheckTxOutcome::AlreadyInPending(_) | CheckTxOutcome::AlreadyInParked(_) => {
+                    "already".to_string()
+                }
+                CheckTxOutcome::FailedChecks(error) => {
+                    if debug_enabled() {
+                        eprintln!("[verif_c06] ins {id}: {error:#}");
+                    }
+                    "failedchecks".to_string()
+                }
+                CheckTxOutcome::FailedInsertion(error) => {
+                    let word = format!("{error:?}");
+                    format!("err:{word}")
+                }
+                CheckTxOutcome::RemovedFromMempool {
+                    tx_id, ..
+                } => {
+                    // what `handle_check_tx_request` does with this outcome
+                    mempool.remove_from_removal_cache(&tx_id).await;
+                    "removed".to_string()
+                }
+                CheckTxOutcome::InternalError(_) => "internal".to_string(),
+            };
+            self.emit(format!("ins {id} {text}"));
+        }
+        Ok(())
+    }
+
+    async fn op_prepare(&mut self, args: &[&str]) -> PResult<()> {
+        let kv = KeyValues::parse("prepare", args)?;
+        let max_tx_bytes: i64 = kv.num("max")?;
+        self.honest = None;
+        let proposer = Chain::proposer(&self.a.names);
+        let chain = self.a.chain.as_mut().ok_or("no chain")?;
+        chain.reset_round();
+        let height = chain.stored_height().await + 1;
+        let mempool = chain.app.mempool.clone();
+        let queue: Vec<Arc<CheckedTransaction>> = mempool.builder_queue().await;
+        let queue_ids: Vec<TransactionId> = queue.iter().map(|tx| *tx.id()).collect();
+        let queue_labels: Vec<String> = queue
+            .iter()
+            .map(|tx| {
+                self.a
+                    .tx_names
+                    .get(&tx.id().get())
+                    .cloned()
+                    .unwrap_or_else(|| "?".to_string())
+            })
+            .collect();
+        let request = abci::request::PrepareProposal {
+            max_tx_bytes,
+            txs: vec![],
+            local_last_commit: Some(ExtendedCommitInfo {
+                votes: vec![],
+                round: Round::default(),
+            }),
+            misbehavior: vec![],
+            height: Height::try_from(height).unwrap(),
+            time: block_time(height),
+            next_validators_hash: Hash::default(),
+            proposer_address: proposer,
+        };
+        let result = chain
+            .app
+            .prepare_proposal(request, chain.storage.clone())
+            .await;
+        let response = match result {
+            Ok(response) => response,
+            Err(error) => {
+                let text = report_chain(&error);
+                if debug_enabled() {
+                    eprintln!("[verif_c06] prepare: {text}");
+                }
+                let class = prepare_error_class(&text);
+                chain.reset_round();
+                self.emit(format!("queue {}", join(&queue_labels)));
+                self.emit(format!("prepare err={class} height={height} max={max_tx_bytes}"));
+                return Ok(());
+            }
+        };
+        let executed: Vec<ExecutedTransaction> = chain
+            .app
+            .state
+            .object_get(EXECUTED_TXS_KEY)
+            .unwrap_or_default();
+        let included = executed.len();
+        let total_items = response.txs.len();
+        if included > total_items {
+            return Err("more executed txs than response items".to_string());
+        }
+        let injected = total_items - included;
+        let items: Vec<Bytes> = response.txs[..injected].to_vec();
+        let txs: Vec<Bytes> = response.txs[injected..].to_vec();
+        let tail_matches = txs
+            .iter()
+            .zip(&executed)
+            .all(|(bytes, executed_tx)| bytes == executed_tx.tx.encoded_bytes());
+        let bytes_total: usize = response.txs.iter().map(Bytes::len).sum();
+        let item_bytes: usize = items.iter().map(Bytes::len).sum();
+        let item_lens: Vec<String> = items.iter().map(|item| item.len().to_string()).collect();
+        let codes: Vec<String> = executed
+            .iter()
+            .map(|executed_tx| executed_tx.exec_result.code.value().to_string())
+            .collect();
+        let mut removed = Vec::new();
+        for (tx_id, label) in queue_ids.iter().zip(&queue_labels) {
+            if matches!(
+                mempool.transaction_status(tx_id).await,
+                Some(TransactionStatus::Removed(_))
+            ) {
+                removed.push(label.clone());
+            }
+        }
+        let left = mempool.len().await;
+        let cached: Vec<Arc<CheckedTransaction>> =
+            executed.iter().map(|executed_tx| executed_tx.tx.clone()).collect();
+
+        // Independent replay of the included transactions, in order, on B (the cached checked
+        // transactions are executed the way `finalize_block` executes a block; B's working state is
+        // thrown away afterwards).
+        let dry: Vec<String> = {
+            let names = &self.b.names;
+            let chain_b = self.b.chain.as_mut().ok_or("no chain")?;
+            let (errors, _deposits) = chain_b.dry_run(names, height, &cached).await;
+            let mut words = Vec::new();
+            for index in 0..cached.len() {
+                if index >= errors.len() {
+                    words.push("notrun".to_string());
+                    continue;
+                }
+                match &errors[index] {
+                    None => words.push("ok".to_string()),
+                    Some(text) => {
+                        if debug_enabled() {
+                            eprintln!("[verif_c06] dry run tx {index}: {text}");
+                        }
+                        words.push(format!("err:{}", error_class(text.as_str())));
+                    }
+                }
+            }
+            words
+        };
+
+        let ids = self.labels(&txs);
+        self.emit(format!("queue {}", join(&queue_labels)));
+        self.emit(format!(
+            "prepare ok height={height} max={max_tx_bytes} ids={} bytes={bytes_total} \
+             nitems={injected} itembytes={item_bytes} itemlens={} codes={} dry={} removed={} left={left}{}",
+            join(&ids),
+            join(&item_lens),
+            join(&codes),
+            join(&dry),
+            join(&removed),
+            if tail_matches { "" } else { " tailmismatch" },
+        ));
+        self.honest = Some(Honest {
+            height,
+            items,
+            txs,
+            accepted: None,
+        });
+        Ok(())
+    }
+
+    /// Runs `process_proposal` on B for the given block data and returns the verdict together
+    /// with the labels of the transactions which cannot be constructed against B's committed
+    /// state.
+    async fn judge(&mut self, height: u64, items: &[Bytes], txs: &[Bytes]) -> PResult<(String, String)> {
+        let proposer = Chain::proposer(&self.b.names);
+        let mut noncons = Vec::new();
+        {
+            let chain = self.b.chain.as_mut().ok_or("no chain")?;
+            chain.reset_round();
+            let snapshot = chain.storage.latest_snapshot();
+            for bytes in txs {
+                if let Err(error) = CheckedTransaction::new(bytes.clone(), &snapshot).await {
+                    if debug_enabled() {
+                        eprintln!("[verif_c06] not constructible at block start: {error:#}");
+                    }
+                    noncons.push(self.a.tx_names.get(&sha(bytes)).cloned().unwrap_or_else(|| "?".to_string()));
+                }
+            }
+        }
+        let chain = self.b.chain.as_mut().ok_or("no chain")?;
+        let data: Vec<Bytes> = items.iter().chain(txs.iter()).cloned().collect();
+        let request = abci::request::ProcessProposal {
+            hash: block_hash(height),
+            height: Height::try_from(height).unwrap(),
+            time: block_time(height),
+            next_validators_hash: Hash::default(),
+            proposer_address: proposer,
+            txs: data,
+            proposed_last_commit: Some(CommitInfo {
+                votes: vec![],
+                round: Round::default(),
+            }),
+            misbehavior: vec![],
+        };
+        let result = AssertUnwindSafe(chain.app.process_proposal(request, chain.storage.clone()))
+            .catch_unwind()
+            .await;
+        let verdict = match result {
+            Ok(Ok(())) => "accept".to_string(),
+            Ok(Err(error)) => {
+                let text = report_chain(&error);
+                if debug_enabled() {
+                    eprintln!("[verif_c06] process_proposal: {text}");
+                }
+                format!("reject={}", reject_class(&text))
+            }
+            Err(_) => "panic".to_string(),
+        };
+        let _ = std::panic::catch_unwind(AssertUnwindSafe(|| chain.reset_round()));
+        Ok((verdict, join(&noncons)))
+    }
+
+    async fn op_process(&mut self) -> PResult<()> {
+        let Some(honest) = self.honest.as_ref() else {
+            self.emit("process none");
+            return Ok(());
+        };
+        let (height, items, txs) = (honest.height, honest.items.clone(), honest.txs.clone());
+        let (verdict, noncons) = self.judge(height, &items, &txs).await?;
+        if let Some(honest) = self.honest.as_mut() {
+            honest.accepted = Some(verdict == "accept");
+        }
+        self.emit(format!("process {verdict} noncons={noncons}"));
+        Ok(())
+    }
+
+    /// Recomputes the two commitment items the way an honest proposer would for `txs`.
+    async fn recommit(&mut self, height: u64, items: &mut [Bytes], txs: &[Bytes]) -> PResult<()> {
+        let names = &self.b.names;
+        let chain = self.b.chain.as_mut().ok_or("no chain")?;
+        chain.reset_round();
+        let snapshot = chain.storage.latest_snapshot();
+        let mut checked = Vec::new();
+        for bytes in txs {
+            if let Ok(tx) = CheckedTransaction::new(bytes.clone(), &snapshot).await {
+                checked.push(Arc::new(tx));
+            }
+        }
+        let (_errors, deposits): (_, HashMap<RollupId, Vec<Deposit>>) =
+            chain.dry_run(names, height, &checked).await;
+        let typed = chain.app.uses_data_item_enum(Height::try_from(height).unwrap());
+        let roots: Vec<Bytes> = if typed {
+            generate_rollup_datas_commitment::<true>(&checked, deposits)
+                .into_iter()
+                .collect()
+        } else {
+            generate_rollup_datas_commitment::<false>(&checked, deposits)
+                .into_iter()
+                .collect()
+        };
+        for (slot, root) in items.iter_mut().zip(roots) {
+            *slot = root;
+        }
+        Ok(())
+    }
+
+    async fn op_mut(&mut self, args: &[&str]) -> PResult<()> {
+        let (&kind, rest) = args.split_first().ok_or("usage: mut <kind> ...")?;
+        let Some(honest) = self.honest.as_ref() else {
+            self.emit(format!("mut {kind} none"));
+            return Ok(());
+        };
+        let height = honest.height;
+        let mut items = honest.items.clone();
+        let mut txs = honest.txs.clone();
+        let honest_data: Vec<Bytes> = items.iter().chain(txs.iter()).cloned().collect();
+        let num = |index: usize| -> PResult<usize> {
+            rest.get(index)
+                .ok_or_else(|| format!("missing argument {index}"))?
+                .parse::<usize>()
+                .map_err(|_| "bad number".to_string())
+        };
+        let n = txs.len();
+        let k = items.len();
+        let resolved: String;
+        let mut recommit = false;
+        match kind {
+            "swap" => {
+                if n < 2 {
+                    self.emit("mut swap skip");
+                    return Ok(());
+                }
+                let i = num(0)? % n;
+                let mut j = num(1)? % n;
+                if i == j {
+                    j = (i + 1) % n;
+                }
+                txs.swap(i, j);
+                resolved = format!("i={i} j={j}");
+            }
+            "drop" => {
+                if n < 1 {
+                    self.emit("mut drop skip");
+                    return Ok(());
+                }
+                let i = num(0)? % n;
+                txs.remove(i);
+                resolved = format!("i={i}");
+            }
+            "dup" => {
+                if n < 1 {
+                    self.emit("mut dup skip");
+                    return Ok(());
+                }
+                let i = num(0)? % n;
+                let copy = txs[i].clone();
+                txs.insert(i + 1, copy);
+                resolved = format!("i={i}");
+            }
+            "flip" => {
+                // only the two commitment items
+                let i = num(0)? % 2;
+                if k < 2 || items[i].is_empty() {
+                    self.emit("mut flip skip");
+                    return Ok(());
+                }
+                let byte = num(1)? % items[i].len();
+                let mut bytes = items[i].to_vec();
+                bytes[byte] ^= 0x01;
+                items[i] = bytes.into();
+                resolved = format!("i={i} byte={byte}");
+            }
+            "trunc" => {
+                let total = k + n;
+                if total == 0 {
+                    self.emit("mut trunc skip");
+                    return Ok(());
+                }
+                let i = num(0)? % total;
+                let target = if i < k { &mut items[i] } else { &mut txs[i - k] };
+                if target.is_empty() {
+                    self.emit("mut trunc skip");
+                    return Ok(());
+                }
+                let len = num(1)? % target.len();
+                let shorter = target.slice(..len);
+                *target = shorter;
+                resolved = format!("i={i} len={len} item={}", u8::from(i < k));
+            }
+            "swapitems" => {
+                if k < 2 {
+                    self.emit("mut swapitems skip");
+                    return Ok(());
+                }
+                let i = num(0)? % k;
+                let mut j = num(1)? % k;
+                if i == j {
+                    j = (i + 1) % k;
+                }
+                items.swap(i, j);
+                resolved = format!("i={i} j={j}");
+            }
+            "dropitem" => {
+                if k < 1 {
+                    self.emit("mut dropitem skip");
+                    return Ok(());
+                }
+                let i = num(0)? % k;
+                items.remove(i);
+                resolved = format!("i={i}");
+            }
+            "sig" | "body" => {
+                if n < 1 {
+                    self.emit(format!("mut {kind} skip"));
+                    return Ok(());
+                }
+                let i = num(0)? % n;
+                let mut decoded = raw::Transaction::decode(txs[i].clone())
+                    .map_err(|_| "honest tx does not decode".to_string())?;
+                let byte;
+                if kind == "sig" {
+                    let mut signature = decoded.signature.to_vec();
+                    if signature.is_empty() {
+                        return Err("empty signature".to_string());
+                    }
+                    byte = num(1)? % signature.len();
+                    signature[byte] ^= 0x01;
+                    decoded.signature = signature.into();
+                } else {
+                    let body = decoded.body.as_mut().ok_or("no body")?;
+                    let mut value = body.value.to_vec();
+                    if value.is_empty() {
+                        return Err("empty body".to_string());
+                    }
+                    byte = num(1)? % value.len();
+                    value[byte] ^= 0x01;
+                    body.value = value.into();
+                }
+                txs[i] = decoded.encode_to_vec().into();
+                resolved = format!("i={i} byte={byte}");
+            }
+            "append" | "prepend" => {
+                let list = rest.first().ok_or("missing tx ids")?;
+                recommit = rest.get(1).is_some_and(|flag| *flag == "recommit");
+                let mut extra = Vec::new();
+                for id in list.split(',').filter(|id| !id.is_empty()) {
+                    let bytes = self
+                        .a
+                        .txs
+                        .get(id)
+                        .cloned()
+                        .ok_or_else(|| format!("unknown tx `{id}`"))?;
+                    extra.push(bytes);
+                }
+                if kind == "append" {
+                    txs.extend(extra);
+                } else {
+                    extra.extend(txs);
+                    txs = extra;
+                }
+                resolved = format!("txs={list} recommit={}", u8::from(recommit));
+            }
+            other => return Err(format!("unknown mutation `{other}`")),
+        }
+        if recommit {
+            self.recommit(height, &mut items, &txs).await?;
+        }
+        let data: Vec<Bytes> = items.iter().chain(txs.iter()).cloned().collect();
+        let same = u8::from(data == honest_data);
+        let ids = self.labels(&txs);
+        let (verdict, noncons) = self.judge(height, &items, &txs).await?;
+        self.emit(format!(
+            "mut {kind} {resolved} ids={} same={same} verdict={verdict} noncons={noncons}",
+            join(&ids)
+        ));
+        Ok(())
+    }
+
+    async fn op_finalize(&mut self) -> PResult<()> {
+        let Some(honest) = self.honest.take() else {
+            self.emit("finalize none");
+            return Ok(());
+        };
+        if honest.accepted != Some(true) {
+            // Never finalize a block B refused (or was not asked about): restore A's round state.
+            if let Some(chain) = self.a.chain.as_mut() {
+                chain.reset_round();
+            }
+            self.emit("finalize skip");
+            return Ok(());
+        }
+        let height = honest.height;
+        let data: Vec<Bytes> = honest.items.iter().chain(honest.txs.iter()).cloned().collect();
+        let proposer = Chain::proposer(&self.a.names);
+
+        // A: the proposer's own path: process_proposal (matches the prepared fingerprint, hence no
+        // re-execution), finalize_block, commit.
+        let own;
+        let hash_a;
+        {
+            let names = &self.a.names;
+            let chain = self.a.chain.as_mut().ok_or("no chain")?;
+            let request = abci::request::ProcessProposal {
+                hash: block_hash(height),
+                height: Height::try_from(height).unwrap(),
+                time: block_time(height),
+                next_validators_hash: Hash::default(),
+                proposer_address: proposer,
+                txs: data.clone(),
+                proposed_last_commit: Some(CommitInfo {
+                    votes: vec![],
+                    round: Round::default(),
+                }),
+                misbehavior: vec![],
+            };
+            own = match chain
+                .app
+                .process_proposal(request, chain.storage.clone())
+                .await
+            {
+                Ok(()) => "accept".to_string(),
+                Err(error) => format!("reject={}", reject_class(&report_chain(&error))),
+            };
+            let request = Chain::finalize_request(names, height, data.clone());
+            match chain
+                .app
+                .finalize_block(request, chain.storage.clone())
+                .await
+            {
+                Ok(response) => hash_a = hex16(response.app_hash.as_bytes()),
+                Err(error) => {
+                    let class = error_class(&report_chain(&error));
+                    chain.reset_round();
+                    self.emit(format!("finalize err=a:{class} own={own}"));
+                    return Ok(());
+                }
+            }
+            if chain.app.commit(chain.storage.clone()).await.is_err() {
+                self.emit("finalize err=a:commit");
+                return Ok(());
+            }
+        }
+        let hash_b;
+        {
+            let names = &self.b.names;
+            let chain = self.b.chain.as_mut().ok_or("no chain")?;
+            chain.reset_round();
+            let request = Chain::finalize_request(names, height, data);
+            match chain
+                .app
+                .finalize_block(request, chain.storage.clone())
+                .await
+            {
+                Ok(response) => hash_b = hex16(response.app_hash.as_bytes()),
+                Err(error) => {
+                    let class = error_class(&report_chain(&error));
+                    chain.reset_round();
+                    self.emit(format!("finalize err=b:{class} own={own}"));
+                    return Ok(());
+                }
+            }
+            if chain.app.commit(chain.storage.clone()).await.is_err() {
+                self.emit("finalize err=b:commit");
+                return Ok(());
+            }
+        }
+        self.emit(format!(
+            "finalize height={height} own={own} same={}",
+            u8::from(hash_a == hash_b)
+        ));
+        Ok(())
+    }
+}
+
+#[tokio::test]
+async fn drive() {
+    let Ok(input_path) = std::env::var("VERIF_IN") else {
+        return;
+    };
+    let script = std::fs::read_to_string(&input_path).expect("VERIF_IN should be readable");
+    if debug_enabled() {
+        std::panic::set_hook(Box::new(|info| eprintln!("[verif_c06] panic: {info}")));
+    } else {
+        std::panic::set_hook(Box::new(|_| {}));
+    }
+    let mut ctx = Ctx::new();
+    for line in script.lines() {
+        ctx.run_line(line).await;
+    }
+    ctx.a.chain = None;
+    ctx.b.chain = None;
+    let _ = std::panic::take_hook();
+    match std::env::var("VERIF_OUT") {
+        Ok(output_path) => {
+            std::fs::write(&output_path, &ctx.out).expect("VERIF_OUT should be writable");
+        }
+        Err(_) => print!("{}", ctx.out),
+    }
+}
